@@ -66,10 +66,13 @@ def gen_cases(ctx):
     rng = ctx.rng
     thorough = ctx.tier == "thorough"
     cases = []
-    dims = list(range(1, 41)) if not thorough else list(range(1, 41)) + [64, 100, 150, 200, 300]
+    # 129 and 130: above any plausible "large matrix" threshold and not a multiple of 2 / 4 / 8 / 16 / 32
+    dims = list(range(1, 41)) + [129, 130] if not thorough else list(range(1, 41)) + [64, 100, 129, 130, 150, 200, 257, 300]
     for n in dims:
         reps = 2 if n <= 40 else 1
         for kind in KINDS:
+            if n > 40 and not thorough and kind not in ("random", "perm", "rankdef", "cauchy"):
+                continue
             for _ in range(reps):
                 m = structured(rng, kind, n)
                 cases.append(("inv", kind, n, "c11 inv %d %s" % (n, mhex(m))))
